@@ -41,6 +41,14 @@ def _task(args):
 
 
 def _winit():
+    # one core per worker: all logical threads of an execution then hand the baton over
+    # on the same CPU (cross-core wake-ups made executions 3-10x slower and erratic)
+    try:
+        ident = multiprocessing.current_process()._identity
+        cpus = sorted(os.sched_getaffinity(0))
+        os.sched_setaffinity(0, {cpus[(ident[0] - 1) % len(cpus)]})
+    except Exception:
+        pass
     gc.collect()
     gc.freeze()
 
